@@ -238,3 +238,43 @@ Definition eip712_bid (K : bytes -> bytes) (tx : bytes) (A bn ds de : N) : bytes
 Definition eip712_commitment (K : bytes -> bytes) (tx : bytes) (A bn ds de : N) (dig sig : bytes) : bytes :=
   eip712_hash K domain_schema commitment_domain commitment_schema
               (commitment_values tx A bn ds de dig sig).
+
+(* ------------------------------------------------------------------------------------- *)
+(* The byte strings the two encoders feed to K that depend on the message (the constant
+   type/domain strings are the same in every computation): the tx-hash string, the struct
+   encoding [data], the final [rawData], and for commitments the two hex strings.  They are
+   named here so that the binding theorems can say WHICH pre-images collide. *)
+Definition bid_amount (b : bid) : Z := match parse_amount (b_amt b) with Some A => A | None => 0%Z end.
+
+Section Preimages.
+  Variable K : bytes -> bytes.
+
+  Definition bid_data (b : bid) (A : Z) : bytes :=
+    ((((K (lit_struct_type c03_bid_strings) ++ K (b_tx b)) ++ u256bytes A) ++ u256bytes (b_bn b)) ++
+     u256bytes (b_ds b)) ++ u256bytes (b_de b).
+  Definition bid_raw (b : bid) (A : Z) : bytes :=
+    lit_prefix c03_bid_strings ++ (domain_separator_of K c03_bid_strings ++ K (bid_data b A)).
+
+  Definition commitment_data (b : bid) (A : Z) : bytes :=
+    ((((((K (lit_struct_type c03_commit_strings) ++ K (b_tx b)) ++ u256bytes A) ++ u256bytes (b_bn b)) ++
+       u256bytes (b_ds b)) ++ u256bytes (b_de b)) ++ K (hex (obytes (b_dig b)))) ++ K (hex (obytes (b_sig b))).
+  Definition commitment_raw (b : bid) (A : Z) : bytes :=
+    lit_prefix c03_commit_strings ++ (domain_separator_of K c03_commit_strings ++ K (commitment_data b A)).
+
+  (* position-wise pairs of the message-dependent pre-images of two computations *)
+  Definition bid_preimage_pairs (b1 b2 : bid) : list (bytes * bytes) :=
+    [ (bid_raw b1 (bid_amount b1), bid_raw b2 (bid_amount b2));
+      (bid_data b1 (bid_amount b1), bid_data b2 (bid_amount b2));
+      (b_tx b1, b_tx b2) ].
+  Definition commitment_preimage_pairs (b1 b2 : bid) : list (bytes * bytes) :=
+    [ (commitment_raw b1 (bid_amount b1), commitment_raw b2 (bid_amount b2));
+      (commitment_data b1 (bid_amount b1), commitment_data b2 (bid_amount b2));
+      (b_tx b1, b_tx b2);
+      (hex (obytes (b_dig b1)), hex (obytes (b_dig b2)));
+      (hex (obytes (b_sig b1)), hex (obytes (b_sig b2))) ].
+
+  (* a collision of K among the listed pairs: two DIFFERENT pre-images, taken from the same
+     position of the two computations, with one image *)
+  Definition collision_among (ps : list (bytes * bytes)) : Prop :=
+    exists x y, In (x, y) ps /\ x <> y /\ K x = K y.
+End Preimages.
